@@ -676,4 +676,16 @@ theorem sameAnswer_of_select {pt pt' : PTree} (g : Globals) (m : String) (us : L
       · rw [hd.any_eq]
 
 
+/-- The Spec's expected parameter map is the map the walk along the pattern builds. -/
+theorem expectedFrom_eq (p : Pattern) : ∀ (us : Url) (ps : List (String × String)),
+    expectedFrom ps p us = bindParams ps p us := by
+  induction p with
+  | nil => intro us ps; simp [expectedFrom, bindParams]
+  | cons a p ih =>
+    intro us ps
+    cases us with
+    | nil => simp [expectedFrom, bindParams]
+    | cons u us =>
+      cases hs : a.seg <;> simp [expectedFrom, bindParams, hs, ih]
+
 end LunarVerif.C13
